@@ -90,12 +90,14 @@ func (o orderedPackets) Sort() {
 // // packet registry
 // register incoming packets to be handled
 func (s *packetManager) incomingPacket(pkt orderedRequest) {
+	verifHook(vhPmIncoming, 0, pkt.orderID(), nil)
 	s.working.Add(1)
 	s.requests <- pkt
 }
 
 // register outgoing packets as being ready
 func (s *packetManager) readyPacket(pkt orderedResponse) {
+	verifHook(vhPmReady, 0, pkt.orderID(), nil)
 	s.responses <- pkt
 	s.working.Done()
 }
@@ -125,6 +127,7 @@ func (s *packetManager) workerChan(runWorker func(chan orderedRequest),
 	pktChan := make(chan orderedRequest, SftpServerWorkerCount)
 	go func() {
 		for pkt := range pktChan {
+			verifHook(vhPmDispatch, 0, pkt.orderID(), nil)
 			switch pkt.requestPacket.(type) {
 			case *sshFxpReadPacket, *sshFxpWritePacket:
 				s.incomingPacket(pkt)
@@ -180,7 +183,9 @@ func (s *packetManager) maybeSendPackets() {
 		// debug("outgoing: %v", ids(s.outgoing))
 		if in.orderID() == out.orderID() {
 			debug("Sending packet: %v", out.id())
+			verifHook(vhPmSendBegin, out.id(), out.orderID(), nil)
 			s.sender.sendPacket(out.(encoding.BinaryMarshaler))
+			verifHook(vhPmSendEnd, out.id(), out.orderID(), nil)
 			if s.alloc != nil {
 				// mark for reuse the slices allocated for this request
 				s.alloc.ReleasePages(in.orderID())
